@@ -32,11 +32,72 @@ def classify(why):
 SECTION_PROGRAMS = {"section-inserts-grows", "section-rehash-clear", "section-stream", "section-stream-restore"}
 
 
+def regen_memorder():
+    """T-C"""
+    import os
+    import sys
+    gen = os.path.join(C.CACHE, "gen")
+    os.makedirs(gen, exist_ok=True)
+    tmp = os.path.join(gen, "MemOrder.lean")
+    rc, out, _ = C.sh([sys.executable, os.path.join(C.VERIF, "translate", "memorder.py"), C.REPO, tmp, gen])
+    if rc != 0:
+        return False, ["T-C: " + out.strip()[-1500:]]
+    msgs = []
+    if C.write_if_changed(os.path.join(C.LEAN, "Cuckoo", "Gen", "MemOrder.lean"), open(tmp).read()):
+        msgs.append("T-C: Gen/MemOrder.lean changed")
+    return True, msgs
+
+
+def tsan_runs(res, tier, known):
+    """K4: free-running threads under ThreadSanitizer (guard off): supports the data-race clause of C03"""
+    import os
+    ok, exe, log = C.build_harness("k4-tsan", "k4_tsan.cc", ["-O1", "-g", "-fsanitize=thread", "-U" + C.GUARD], compiler="clang++-14")
+    if not ok:
+        res.add_broken("K4 (TSan) harness does not compile against /repo", log)
+        return
+    env = dict(os.environ)
+    env["TSAN_OPTIONS"] = "halt_on_error=0 exitcode=0"
+    nseeds = 4 if tier == "quick" else 24
+    iters = 2500 if tier == "quick" else 20000
+    reports, runs = [], 0
+    for mode in (0, 1):
+        for sd in range(nseeds):
+            rc, out, dt = C.sh([exe, str(C.seed() * 100 + sd), str(iters), str(mode)], timeout=300, env=env)
+            runs += 1
+            if "done bad=0" not in out:
+                res.add_failing({"what": "K4 free-running run failed (crash, hang or a reader saw a torn/wrong value)", "mode": mode,
+                                 "seed": C.seed() * 100 + sd, "tail": out[-1500:]})
+            blocks = out.split("WARNING: ThreadSanitizer")[1:]
+            for b in blocks:
+                reports.append(b)
+    f8 = [k for k in known if k.get("id") == "F8" and k.get("status", "open").startswith("open")]
+    unknown = []
+    nknown = 0
+    for b in reports:
+        if f8 and ("maybe_resize_locks" in b or "all_locks" in b or "emplace_back" in b):
+            nknown += 1
+        else:
+            unknown.append(b)
+    if nknown:
+        res.known.append("F8 %s (%d ThreadSanitizer report(s) in %d runs)" % (f8[0]["what"], nknown, runs))
+    for b in unknown[:2]:
+        import re
+        short = re.sub(r"libcuckoo::cuckoohash_map<[^()]*?>::", "M::", b)
+        res.add_failing({"what": "ThreadSanitizer: data race outside the known lock-array-list race", "report": short[:4000]})
+    if unknown and not [x for x in res.broken if "K4" in x["what"]]:
+        res.add_broken("K4: ThreadSanitizer reports a data race between table operations")
+    res.cov["tsan_runs"] = runs
+    res.cov["tsan_reports_known"] = nknown
+    res.cov["tsan_reports_unknown"] = len(unknown)
+
+
 def run(pid, tier, programs=None):
     res = C.Result(pid, tier)
     known = [k for k in C.load_known().get("findings", []) if k.get("property") == pid]
     with C.Lock():
-        lean_ok, names = C.lean_phase(res, pid, gen_fn=None, thorough_modules=["Cuckoo.Model.Proto"])
+        lean_ok, names = C.lean_phase(res, pid, gen_fn=regen_memorder if pid == "C03" else None, thorough_modules=["Cuckoo.Model.Proto"])
+    if pid == "C03":
+        tsan_runs(res, tier, known)
     out = k3.explore(tier, C.seed(), programs=programs)
     for b in out["build_errors"]:
         res.add_broken("K3 harness does not compile against /repo (%s)" % b["config"], b["log"])
